@@ -58,6 +58,10 @@ func isEllipsisDecl(d ast.Decl) bool {
 	if !ok {
 		return false
 	}
+	// An attribute or alias on the pattern constraint would be lost.
+	if len(f.Attrs) > 0 || f.Alias != nil {
+		return false
+	}
 	v, ok := f.Value.(*ast.Ident)
 	if !ok || v.Name != "_" {
 		return false
